@@ -33,7 +33,8 @@ from explorerscript.ssb_converting.compiler.compile_handlers.abstract import Any
 from explorerscript.ssb_converting.compiler.compile_handlers.functions.macro_def import MacroDefCompileHandler
 from explorerscript.ssb_converting.compiler.compiler_visitor.statement_visitor import StatementVisitor
 from explorerscript.ssb_converting.compiler.utils import CompilerCtx, Counter
-from explorerscript.util import _
+from explorerscript.ssb_converting.ssb_special_ops import SsbLabel, SsbLabelJump
+from explorerscript.util import _, f
 
 
 class MacroVisitor(ExplorerScriptVisitor):
@@ -84,6 +85,18 @@ class MacroVisitor(ExplorerScriptVisitor):
 
         blueprints = self._root_handler.collect()
         name = self._root_handler.get_name()
+
+        # Labels are private to a macro: a jump to a label the macro does not define can never be resolved. Routines
+        # report this when their labels are finalized; a macro that is never called would otherwise not be checked.
+        defined_labels = {op.id for op in blueprints if isinstance(op, SsbLabel)}
+        for op in blueprints:
+            if isinstance(op, SsbLabelJump) and op.label is not None and op.label.id not in defined_labels:
+                label_id = op.label.original_name
+                if label_id is None:
+                    label_id = f"<internal:{op.label.id}>"
+                raise SsbCompilerError(
+                    f(_("Label {label_id} does not exist in macro {name}, but a jump to it does (remove it)."))
+                )
         variables = self._root_handler.get_variables()
 
         return ExplorerScriptMacro(name, variables, blueprints, self.source_map_builder.build())
